@@ -732,6 +732,8 @@ fn main() {
         },
     );
     ctx.require_label_fraction("arbitrary", "accepted", 0.03);
+    // coverage-guided byte-level campaign (libFuzzer target `zip321_uri`, oracle inside the target)
+    ctx.run_fuzz("zip321_uri", ctx.tier.pick(500_000, 10_000_000), ctx.tier.pick(4, 16), 2048);
     ctx.finish();
 }
 
